@@ -17,3 +17,7 @@ import EmuVerif.Props.C24
 #print axioms EmuVerif.Props.C24.effnoise_branch_dim2
 #print axioms EmuVerif.Props.C24.effnoise_shape_rejected
 #print axioms EmuVerif.Props.C24.all_lindblad_is_concat
+#print axioms EmuVerif.Props.C24.pulserdata_ops_from_effective_model
+#print axioms EmuVerif.Props.C24.pulserdata_prefer_device_ignores_config
+#print axioms EmuVerif.Props.C24.pulserdata_config_ignores_device
+#print axioms EmuVerif.Props.C24.pulserdata_none_no_ops
